@@ -30,7 +30,9 @@ LEVEL_TEXT = ("query_history_free (Lean, by induction over arbitrary interleavin
               "the real equate/_find_path_recursive/convert: a declared pair is found by the path search in every state "
               "(declared_pair_is_found), equate writes both directions (equate_declares), and a quantity of the one unit converts to "
               "the other by exactly the declared ratio (once_declared_it_converts) - also between powers, (X**2).equals(4*Y**2), where "
-              "the pinned code failed (fix: commit). The uncached computation being a function of the declared graph is tied to "
+              "the pinned code failed (fix: commit). 'Conversions attempted in between never change the outcome of a later one' "
+              "is proved for conversions between simple units: after any Steps (unit operations, consistent declarations, direct and "
+              "planner conversions) the same conversion returns the same magnitude (simple_conversion_history_free). The uncached computation being a function of the declared graph is tied to "
               "the code by the cache-free Lean model of the planner (differential execution of histories against the memoising "
               "implementation) and by the property's own oracle: replay of declarations + one query in a fresh interpreter.")
 LEVEL_NOTE = ("Partial: the planner itself is NOT history independent - the order of an interned unit's factor mapping, fixed by "
@@ -46,6 +48,7 @@ THEOREMS = [
     "Measured.Obligations.cache_discipline_ok", "Measured.Obligations.cached_readers_cleared",
     "Measured.C08.factor_order_witness",
     "Measured.C08.declared_pair_is_found", "Measured.C08.once_declared_it_converts", "Measured.equate_declares",
+    "Measured.C08.simple_conversion_history_free", "Measured.steps_spec",
 ]
 LEAN_TARGETS = ["Props.C08", "Props.C08Planner", "Props.C08Declared", "Obligations.C08"]
 QUICK = {"chunks": 4, "ops": 500}
